@@ -1,6 +1,7 @@
 from dataclasses import Field
 from dataclasses import fields
 from typing import IO
+from typing import Final
 from typing import Literal
 from typing import TypeVar
 from typing import assert_never
@@ -21,6 +22,11 @@ from ._introspect import get_schema_field_type
 from ._introspect import is_optional
 from ._shared import NullableEntityMarker
 from .readers import read_int8
+
+
+_nullable_kafka_types: Final = frozenset(
+    {"string", "bytes", "records", "uuid", "datetime_i64"}
+)
 
 
 def get_reader(
@@ -106,7 +112,15 @@ def get_field_reader(
             inner_type_reader = get_reader(
                 kafka_type=get_schema_field_type(field),
                 flexible=flexible,
-                optional=is_optional(field) and not is_tagged_field,
+                # A nullable tagged field is usually omitted when null, but a peer is
+                # free to send it explicitly, so keep the nullable reader for it. Tagged
+                # fields of types that have no null form on the wire are optional only
+                # through the absence of their tag.
+                optional=is_optional(field)
+                and (
+                    not is_tagged_field
+                    or get_schema_field_type(field) in _nullable_kafka_types
+                ),
             )
         case PrimitiveTupleField():
             inner_type_reader = get_reader(
